@@ -367,7 +367,15 @@ class TermBuilder:
             old = self.name_term(name, d)
             new = self._binop(st.op, old, self.term(st.value, d), st)
             return new
-        if isinstance(st, (ast.FunctionDef, ast.ClassDef)):
+        if isinstance(st, ast.FunctionDef):
+            body = [x for x in st.body if not (isinstance(x, ast.Expr) and isinstance(x.value, ast.Constant))]
+            if len(body) == 1 and isinstance(body[0], ast.Return) and body[0].value is not None and not st.args.vararg and not st.args.kwarg:
+                # a closure with a single return is the same thing as a lambda
+                for sub in ast.walk(body[0].value):
+                    self.cfg.expr_node.setdefault(id(sub), d)
+                return self._lambda_term([a.arg for a in st.args.args], body[0].value, d)
+            return Sym(f"{self.fi.qualname}.<locals>.{name}")
+        if isinstance(st, ast.ClassDef):
             return Sym(f"{self.fi.qualname}.<locals>.{name}")
         return Sym(f"{name}@{d.id}")
 
@@ -549,6 +557,8 @@ class TermBuilder:
         (b) `v = e0` + masked overwrite `v[m] = e1` that dominates the use."""
         muts = self.mutated.get(name, [])
         st = d.ast
+        if isinstance(st, ast.AnnAssign) and isinstance(st.target, ast.Name) and st.value is not None:
+            st = ast.Assign(targets=[st.target], value=st.value, lineno=st.lineno)
         if not isinstance(st, ast.Assign) or len(st.targets) != 1 or not isinstance(st.targets[0], ast.Name):
             return None
         # (a)
@@ -877,7 +887,21 @@ class TermBuilder:
         return App("set", [self.term(x, at) for x in e.elts])
 
     def _t_Lambda(self, e, at):
-        return Sym(f"<lambda@{e.lineno}>")
+        return self._lambda_term([a.arg for a in e.args.args], e.body, at)
+
+    def _lambda_term(self, params: List[str], body: ast.expr, at) -> T:
+        """lambda p0, p1: body  ->  lambda((p0', p1'), body') with canonical bound names; free variables are resolved in
+        the enclosing function at the point of definition."""
+        self._comp_depth += 1
+        scope = {p: Sym("$l%d_%d" % (self._comp_depth, k)) for k, p in enumerate(params)}
+        for v in scope.values():
+            self.ranks.set(v, 0)
+        self._bound.append(scope)
+        try:
+            return App("lambda", (Tup(list(scope.values())), self.term(body, at)))
+        finally:
+            self._bound.pop()
+            self._comp_depth -= 1
 
     # ------------------------------------------------------------ calls
     def _t_Call(self, e: ast.Call, at):
